@@ -91,6 +91,11 @@ func UserRulesFile() string {
 	return filepath.Join(VerifRoot(), "corpus", "framework_rules", "typed_rules.go")
 }
 
+// UserCommentRulesFile holds MatchComment rules.
+func UserCommentRulesFile() string {
+	return filepath.Join(VerifRoot(), "corpus", "framework_rules", "comment_rules.go")
+}
+
 var reRuleGroup = regexp.MustCompile(`(?m)^func (\w+)\(m dsl\.Matcher\)`)
 
 // ruleguardVariants: the dynamic checker with a user rules file, and every string parameter at values drawn from the
@@ -102,6 +107,10 @@ func ruleguardVariants(info *linter.CheckerInfo) []Variant {
 	data, err := os.ReadFile(rules)
 	if err != nil {
 		return nil
+	}
+	if more, err := os.ReadFile(UserCommentRulesFile()); err == nil {
+		data = append(append(data, '\n'), more...)
+		rules += "," + UserCommentRulesFile()
 	}
 	var groups []string
 	for _, m := range reRuleGroup.FindAllStringSubmatch(string(data), -1) {
@@ -301,6 +310,22 @@ func (r *Runner) reset() {
 			continue
 		}
 		r.inst[i] = c
+	}
+}
+
+// Refresh replaces the instances of all hand-written checkers by freshly constructed ones (the embedded rule checkers
+// keep no state between files and are expensive to construct).
+func (r *Runner) Refresh() {
+	for i, v := range r.variants {
+		if v.Info.EmbeddedRuleguard || v.MayFail {
+			continue
+		}
+		c, err := newChecker(r.ctx, v)
+		if err != nil {
+			r.inst[i], r.errs[i] = nil, err.Error()
+			continue
+		}
+		r.inst[i], r.errs[i] = c, ""
 	}
 }
 
